@@ -422,6 +422,73 @@ def extract_casts():
     return casts, lens
 
 
+# --------------------------------------------------------------------------
+# (A3) translator: objects with static storage duration that can be written, in the five hash translation units.
+# The model's transform is a pure function of (H, block): that abstracts the C function correctly only if the C
+# function keeps no state outside its arguments (a `static uint64_t W[16]` scratch buffer is shared by all threads).
+# Semantic route: each file is compiled with the configured flags and the symbol table of the object is read —
+# every defined object symbol in a writable section (.data/.bss/common/TLS) is such an object, whatever macro or
+# name produced it; const tables live in .rodata and are counted separately.
+
+def _scan_object(path, extra=()):
+    """-> (writable objects [(name, file, line)], read-only objects, number of function symbols)"""
+    d = tempfile.mkdtemp(prefix="vs", dir=vlib.BUILD if os.path.isdir(vlib.BUILD) else None)
+    try:
+        o = os.path.join(d, "x.o")
+        r = vlib.sh(["gcc", "-c", "-g", "-O0", "-w", "-fno-pic", "-fno-pie", "-fno-common"] + vlib.CFLAGS_COMMON +
+                    ["-I" + os.path.dirname(path)] + list(extra) + [path, "-o", o])
+        if r.returncode != 0:
+            raise RuntimeError("cannot compile %s for the static-object scan: %s" % (path, r.stderr[-600:]))
+        r = vlib.sh(["nm", "-l", o])
+        if r.returncode != 0:
+            raise RuntimeError("nm failed on the object of %s" % path)
+        rw, ro, nfun = [], [], 0
+        for line in r.stdout.splitlines():
+            m = re.match(r"^([0-9a-fA-F]*)\s+(\S)\s+(\S+)(?:\s+(\S+):(\d+))?\s*$", line)
+            if not m:
+                continue
+            typ, name = m.group(2), re.sub(r"\.\d+$", "", m.group(3))
+            where = (m.group(4) or path, int(m.group(5) or 0))
+            if typ in "tT":
+                nfun += 1
+            elif typ in "rRnN":
+                ro.append((name,) + where)
+            elif typ not in "UwWvVaA?-":     # b B d D C s S g G u i ... : anything else that is defined is treated as writable
+                rw.append((name,) + where)
+        return rw, ro, nfun
+    finally:
+        subprocess.run(["rm", "-rf", d])
+
+
+def _statics_selftest():
+    """the scanner must see a writable static local, a writable file-scope object and tell them from const tables"""
+    d = tempfile.mkdtemp(prefix="vt", dir=vlib.BUILD if os.path.isdir(vlib.BUILD) else None)
+    try:
+        c = os.path.join(d, "probe.c")
+        open(c, "w").write("static const unsigned K[4] = {1, 2, 3, 4};\nstatic const char *const nm[] = {\"a\"};\n"
+                           "unsigned g;\nunsigned f (unsigned i) { static unsigned W[16]; W[i & 15] += K[i & 3] + g; "
+                           "return W[0] + (unsigned) nm[0][0]; }\n")
+        rw, ro, nfun = _scan_object(c)
+        if sorted(x[0] for x in rw) != ["W", "g"] or sorted(x[0] for x in ro) != ["K", "nm"] or nfun != 1:
+            raise RuntimeError("static-object scanner self-test failed: writable %r read-only %r" % (rw, ro))
+    finally:
+        subprocess.run(["rm", "-rf", d])
+
+
+def extract_statics():
+    """-> (mutable [(file, name, line)], const [(file, name, line)], [(file, function symbols)])"""
+    _statics_selftest()
+    mut, con, scanned = [], [], []
+    for alg, rel, upd, fin in CAST_FUNCS:
+        rw, ro, nfun = _scan_object(os.path.join(vlib.REPO, rel))
+        rp = os.path.realpath(vlib.REPO) + os.sep
+        fix = lambda f: os.path.realpath(f)[len(rp):] if os.path.realpath(f).startswith(rp) else f
+        mut += [(fix(f), n, l) for n, f, l in rw]
+        con += [(fix(f), n, l) for n, f, l in ro]
+        scanned.append((rel, nfun))
+    return mut, con, scanned
+
+
 def gen_hash_casts():
     casts, lens = extract_casts()
     o = [extract.HEADER % "src/microhttpd/{md5,sha1,sha256,sha512_256}.c, src/microhttpd_ws/sha1.c "
@@ -445,6 +512,16 @@ def gen_hash_casts():
     o.append("/-- (update function, name of its length parameter, width of that parameter's type in bits) -/")
     o.append("def updateLengthBits : List (String × String × Nat) := [" +
              ", ".join("(%s, %s, %d)" % (json.dumps(f), json.dumps(p), b) for f, p, b in lens) + "]\n")
+    mut, con, scanned = extract_statics()
+    trip = lambda xs: "[" + ", ".join("(%s, %s, %d)" % (json.dumps(f), json.dumps(n), l) for f, n, l in xs) + "]"
+    o.append("/-! Objects with static storage duration in the five translation units, from the symbol tables of the objects\n"
+             "compiled with the configured flags (file, name, line): `mutableStatics` live in a writable section (static\n"
+             "locals, file-scope objects, thread-local ones), `constStatics` in a read-only one. -/\n")
+    o.append("def mutableStatics : List (String × String × Nat) := " + trip(mut))
+    o.append("def constStatics : List (String × String × Nat) := " + trip(con))
+    o.append("/-- (translation unit, number of function symbols the scan saw in its object) -/")
+    o.append("def staticsScanned : List (String × Nat) := [" +
+             ", ".join("(%s, %d)" % (json.dumps(f), n) for f, n in scanned) + "]\n")
     o.append("end Mhd.Gen.Hash\n")
     return vlib.write_if_changed(os.path.join(extract.GEN, "HashCasts.lean"), "\n".join(o))
 
@@ -881,7 +958,8 @@ class Spec:
         "sha512_256_chunks", "sha512_256_reuse", "sha512_256_counter", "sha512_256_table_is_standard",
         "sha1_chunks", "sha1_reuse", "ws_sha1_chunks", "ws_sha1_reuse", "sha1_table_is_standard",
         "no_narrowing_in_control_flow", "finish_length_encoding_sha256", "finish_length_encoding_sha1",
-        "finish_length_encoding_ws_sha1", "finish_length_encoding_md5", "finish_length_encoding_sha512_256")]
+        "finish_length_encoding_ws_sha1", "finish_length_encoding_md5", "finish_length_encoding_sha512_256",
+        "hash_functions_have_no_mutable_static_state")]
     trusted_base = ["Lean 4 kernel", "axioms: propext, Classical.choice, Quot.sound at most (audited per theorem)",
                     "hand-written specifications lean/Mhd/Model/Hash/Spec{Md5,Sha1,Sha256,Sha512}.lean + the padding frame "
                     "Spec.Hash in Model/Hash/MD.lean (RFC 1321 / FIPS 180-4 transcriptions; validated on the published "
@@ -938,6 +1016,13 @@ class Spec:
                               extra=["-O2"], san=False)
         self.h_huge_ws = vlib.cc("h_hash_huge_ws", [hh, os.path.join(W, "sha1.c")],
                                  extra=["-O2", '-DHASH_WS_H="%s"' % os.path.join(W, "sha1.h")], san=False)
+        # threads: no sanitizer, and -O0 on purpose — an optimising compiler forwards the values it has just stored to a
+        # (static) scratch array from registers and never reads the shared memory back, which hides the interference
+        hm = os.path.join(vlib.VERIF, "harness/h_hash_mt.c")
+        self.h_mt = vlib.cc("h_hash_mt", [hm] + [os.path.join(R, f) for f in ("md5.c", "sha1.c", "sha256.c", "sha512_256.c")],
+                            extra=["-O0", "-pthread"], san=False)
+        self.h_mt_ws = vlib.cc("h_hash_mt_ws", [hm, os.path.join(W, "sha1.c")],
+                               extra=["-O0", "-pthread", '-DHASH_WS_H="%s"' % os.path.join(W, "sha1.h")], san=False)
         self.h_cnt = None
         frag = counter_fragment()
         if frag is not None:
@@ -977,6 +1062,73 @@ class Spec:
             if len(failures) > 30:
                 break
         stats["counter_probes"] = {"probes": len(ps), "with_64bit_wrap": nwrap}
+
+    def mt_script(self, rng, alg, threads, millis):
+        """messages (lengths across the block boundaries, a few longer ones), hashlib digests, split positions"""
+        B = 128 if alg == "sha512_256" else 64
+        lens = [0, 1, B - 9, B - 8, B - 1, B, B + 1, 2 * B - 17, 2 * B - 16, 2 * B, 3 * B + 5, 1000, 4096 + 13]
+        lens += [rng.randrange(0, 4 * B) for _ in range(11)]
+        lines = []
+        for n in lens:
+            m = rng.randbytes(n)
+            cuts = sorted(rng.randrange(0, n + 1) for _ in range(rng.randrange(1, 5))) if n else [0]
+            lines.append("msg %s %s %s %s" % (alg, hx(m), reference(alg, m), ",".join(str(c) for c in cuts)))
+        lines.append("run %s 1 %d" % (alg, max(50, millis // 8)))       # baseline: one thread
+        lines.append("run %s %d %d" % (alg, threads, millis))
+        return lines
+
+    def run_threads(self, ctx, failures, stats, boost):
+        """several calculations at the same time in different threads, each with its own context and data"""
+        from concurrent.futures import ThreadPoolExecutor
+        thorough = ctx.tier == "thorough"
+        threads, millis = (8, 2500) if thorough else (4, 1500 if boost else 900)
+        scripts = {a: self.mt_script(ctx.rng, a, threads, millis) for a in self.algs}
+        main = [l for a in self.algs if a != "wssha1" for l in scripts[a]]
+        jobs = {}
+        with ThreadPoolExecutor(max_workers=2) as ex:     # the two binaries side by side; the algorithms of one in turn
+            if main:
+                jobs["main"] = ex.submit(vlib.run_lines, self.h_mt, main, 600)
+            if "wssha1" in scripts:
+                jobs["ws"] = ex.submit(vlib.run_lines, self.h_mt_ws, scripts["wssha1"], 600)
+        outs = {k: f.result() for k, f in jobs.items()}
+        cov = {"threads": threads, "millis_per_algorithm": millis, "messages_per_algorithm": 24, "per_algorithm": {}}
+        pos = 0
+        for a in self.algs:
+            out, rc, err = outs["ws" if a == "wssha1" else "main"]
+            base = 0 if a == "wssha1" else pos
+            n = len(scripts[a])
+            mine = out[base:base + n]
+            if a != "wssha1":
+                pos += n
+            res = [l.split() for l in mine[-2:]] if len(mine) == n else []
+            if rc != 0 or len(res) != 2 or any(len(w) < 8 or w[0] != "mt" for w in res):
+                failures.append(vlib.Failure("sanitizer", "hash %s threads: harness died (rc N)" % a,
+                                             "rc=%d output %r stderr %s" % (rc, mine[-2:], (err or "")[-300:]), scripts[a], "hash"))
+                continue
+            single, multi = res
+            cov["per_algorithm"][a] = {"rounds_1_thread": int(single[5]), "mismatches_1_thread": int(single[7]),
+                                       "rounds": int(multi[5]), "mismatches": int(multi[7])}
+            if int(single[7]):
+                failures.append(vlib.Failure("oracle", "hash %s threads: digest differs from the standard already with one thread" % a,
+                                             "%s" % " ".join(single), scripts[a], "hash"))
+            elif int(multi[7]):
+                i = int(multi[9])
+                failures.append(vlib.Failure(
+                    "oracle", "hash %s threads: digests differ from the standard only when several threads hash at the same time "
+                    "(state shared between calculations)" % a,
+                    "%d threads, each with its own context and copy of the data: %s of %s digests wrong (one thread alone: 0 of %s); "
+                    "first: message %d (%d bytes, %s) gave %s, standard %s"
+                    % (threads, multi[7], multi[5], single[5], i, len(scripts[a][i].split()[2]) // 2 if scripts[a][i].split()[2] != "-" else 0,
+                       multi[10], multi[11], scripts[a][i].split()[3]), scripts[a], "hash"))
+        stats["threads"] = cov
+        ctx.note("threads: %s" % ", ".join("%s %d rounds/%d bad" % (a, v["rounds"], v["mismatches"]) for a, v in cov["per_algorithm"].items()))
+
+    def statics_summary(self):
+        try:
+            mut, con, scanned = extract_statics()
+        except Exception as ex:
+            return "scan failed: %s" % str(ex)[:200]
+        return {"mutable": ["%s:%d %s" % (f, l, n) for f, n, l in mut], "const": len(con), "objects_scanned": dict(scanned)}
 
     def cast_summary(self):
         try:
@@ -1165,6 +1317,7 @@ class Spec:
             for f in sorted(os.listdir(cdir)):
                 corpus.append(json.load(open(os.path.join(cdir, f))))
         samples, distinct = [], set()
+        self.run_threads(ctx, failures, stats, boost)   # before the background load starts: the threads should really run in parallel
         self.huge_start(ctx, boost)   # runs in the background while the small cases go through
         for alg in self.algs:   # the pure-Python reference used for the long-count cases must agree with hashlib
             for n in (0, 1, 55, 56, 64, 111, 112, 128, 129, 300):
@@ -1210,6 +1363,8 @@ class Spec:
                                           + (" vs the same code fed 1 MiB at a time" if ctx.tier == "thorough" else
                                              " (the same code fed 1 MiB at a time is run when they differ)"),
                "narrowing_casts": self.cast_summary(),
+               "concurrent_threads": stats.get("threads"),
+               "static_objects": self.statics_summary(),
                "misalignments": "0..15 for every update and every digest (harness replicas), under -fsanitize=alignment",
                "hashlib_has_sha512_256": _HAVE_512_256, "exhaustive": False,
                "extractor_note": getattr(self, "gen_note", None)}
@@ -1246,6 +1401,13 @@ def replay(ctx, path):
         print("replay file carries no input (proof obligation only):", r.get("no_longer_checks"))
         return 1
     alg = inp[0].split()[1]
+    if inp[0].split()[0] in ("msg", "run"):
+        out, rc, err = vlib.run_lines(sp.h_mt_ws if alg == "wssha1" else sp.h_mt, inp, timeout=600)
+        res = [l for l in out if l.startswith("mt ")]
+        for l in res:
+            print(l)
+        print("(a race: the number of wrong digests varies from run to run; 0 mismatches in every `mt` line = no violation seen)")
+        return 1 if (rc or not res or any(l.split()[7] != "0" for l in res)) else 0
     if inp[0].split()[0] in ("one", "pieces", "multi"):
         bad = 0
         for l in inp:
